@@ -3,9 +3,10 @@
 (* AddKeyWithOpts is tried with are chosen by OptMode:                               *)
 (*   "all2"  every list of at most 2 options        (73 lists for 3 ids)              *)
 (*   "all3"  every list of at most 3 options        (585 lists)                       *)
-(*   "canon" every list of at most 1 option, every combination {status?, fixed?,      *)
-(*           primary?} in that order, and the order-sensitive pairs (an option given   *)
-(*           twice, AsPrimary before WithStatus, WithFixedID before/after the others)  *)
+(*   "one"   every list of at most 1 option         (9 lists)                         *)
+(*   "canon" every combination {status?, fixed?, primary?} in that order (40 lists)   *)
+(*   "order" canon and the order-sensitive pairs (an option given twice, AsPrimary    *)
+(*           before WithStatus, WithFixedID before/after the others)  (85 lists)      *)
 (* With VERIF_EDGES set every explored transition is written as one JSON line (the    *)
 (* raw material of the replay plan).                                                  *)
 EXTENDS KeysetHandle, TLC, Json, IOUtils, CSV
@@ -19,8 +20,9 @@ FixedOpts  == {o \in Opt : o.o = "fixed"}
 PrimOpt    == [o |-> "primary", s |-> "", id |-> NoReq]
 Maybe(S)   == {<<>>} \cup {<<x>> : x \in S}
 
-Canon ==
-  {a \o b \o c : a \in Maybe(StatusOpts), b \in Maybe(FixedOpts), c \in Maybe({PrimOpt})}
+Canon == {a \o b \o c : a \in Maybe(StatusOpts), b \in Maybe(FixedOpts), c \in Maybe({PrimOpt})}
+Order ==
+  Canon
   \cup {<<PrimOpt, s>> : s \in StatusOpts}                       \* AsPrimary first, status later
   \cup {<<s, t>> : s \in StatusOpts, t \in StatusOpts}            \* the later status wins
   \cup {<<f, g>> : f \in FixedOpts, g \in FixedOpts}              \* the later id wins (or the first conflicts)
@@ -32,6 +34,7 @@ OptListsMC == CASE OptMode = "all2"  -> Lists(Opt, 2)
                 [] OptMode = "all3"  -> Lists(Opt, 3)
                 [] OptMode = "one"   -> Lists(Opt, 1)
                 [] OptMode = "canon" -> Canon
+                [] OptMode = "order" -> Order
 AnnListsMC == Lists(Ann, MaxAnnList)
 
 MCNext      == Next(OptListsMC, AnnListsMC)
